@@ -49,6 +49,7 @@ const MAX_BITS: u32 = 520;
 /// Sizes above this are refused by the consumer itself (explicit early return).
 const QS_LIMIT: u32 = 400;
 const MPQS_LIMIT: u32 = 448;
+const SIQS_LIMIT: u32 = 448;
 const FB_PRIME_LIMIT: u64 = 1 << 24;
 
 fn bits64(x: u64) -> u32 {
@@ -430,7 +431,7 @@ pub fn eval_params_opt(c: &ParamCase, model: Option<&mut FbModel>, fb_level: boo
     d.lpf = lpf;
     d.dlf = dlf;
     // the consumer refuses these sizes up front (explicit early return): nothing is consumed
-    if (v == "qs" && bits > QS_LIMIT) || (v == "mpqs" && bits > MPQS_LIMIT) {
+    if (v == "qs" && bits > QS_LIMIT) || (v == "mpqs" && bits > MPQS_LIMIT) || (v == "siqs" && bits > SIQS_LIMIT) {
         d.refused = true;
         return Ok((d, fails));
     }
@@ -1760,6 +1761,7 @@ fn run(ctx: &Ctx) {
                 let lim = match *what {
                     "qs" => QS_LIMIT + 8,
                     "mpqs" => MPQS_LIMIT + 8,
+                    "siqs" => SIQS_LIMIT + 8,
                     _ => MAX_BITS,
                 };
                 if b > lim || (*what == "fbase" && b > 340 && b != 425) {
